@@ -121,28 +121,35 @@ def translate():
         if q.returncode != 0 or not st2.get('ok'):
             st['ok'] = False
             st['error'] = (st.get('error') or '') + ' | flatset2lean: ' + (st2.get('error') or (q.stdout + q.stderr)[-800:])
-        # third translator: the public vector operations ("glue": vectorcommon.hpp -> Gen/VecGlue.lean); cached on the header hash
-        gout = os.path.join(LEAN, 'AmcVerif', 'Gen', 'VecGlue.lean')
-        stamp = os.path.join(BUILD, 'glue.stamp')
-        key = sha(headers_hash(), file_hash([os.path.join(ROOT, 'translator', 'glue2lean.py')]))
-        if os.path.exists(gout) and os.path.exists(stamp) and open(stamp).read() == key:
-            st['glue'] = {'ok': True, 'cached': True}
-        else:
-            g = sh([sys.executable, os.path.join(ROOT, 'translator', 'glue2lean.py'), '--include', INCLUDE, '--out', gout + '.new'])
+        # further translators, each cached on the header hash: the public vector operations ("glue"), the element helpers of
+        # amc::vec, the SmallSet decision logic. A translator that does not know a construct leaves a stub, so that no stale
+        # generated file can make a bridge proof pass.
+        for name, script, outname, ns in (('glue', 'glue2lean.py', 'VecGlue.lean', 'AmcVerif.Gen.Glue'),
+                                          ('helpers', 'helpers2lean.py', 'VecHelpers.lean', 'AmcVerif.Gen.Helpers'),
+                                          ('smallset', 'smallset2lean.py', 'SmallSetGen.lean', 'AmcVerif.Gen.SmallSet')):
+            gout = os.path.join(LEAN, 'AmcVerif', 'Gen', outname)
+            stamp = os.path.join(BUILD, name + '.stamp')
+            deps = [os.path.join(ROOT, 'translator', script), os.path.join(ROOT, 'translator', 'flatset2lean.py'),
+                    os.path.join(ROOT, 'translator', 'glue2lean.py')]
+            key = sha(headers_hash(), file_hash(deps))
+            if os.path.exists(gout) and os.path.exists(stamp) and open(stamp).read() == key:
+                st[name] = {'ok': True, 'cached': True}
+                continue
+            g = sh([sys.executable, os.path.join(ROOT, 'translator', script), '--include', INCLUDE, '--out', gout + '.new'])
             if g.returncode == 0 and os.path.exists(gout + '.new'):
                 os.replace(gout + '.new', gout)
                 open(stamp, 'w').write(key)
-                st['glue'] = {'ok': True, 'cached': False}
+                st[name] = {'ok': True, 'cached': False}
             else:
-                # a construct the translator does not know: keep no stale file that could make the bridge pass
                 msg = (g.stderr or g.stdout)[-800:]
-                open(gout, 'w').write('/- glue2lean FAILED on the current source: ' + msg.replace('-/', '- /') + ' -/\n'
-                                      'namespace AmcVerif.Gen.Glue\nend AmcVerif.Gen.Glue\n')
-                if os.path.exists(stamp):
-                    os.remove(stamp)
-                st['glue'] = {'ok': False, 'error': msg}
+                open(gout, 'w').write('/- ' + script + ' FAILED on the current source: ' + msg.replace('-/', '- /') + ' -/\n'
+                                      'namespace ' + ns + '\nend ' + ns + '\n')
+                for f in (stamp, gout + '.new'):
+                    if os.path.exists(f):
+                        os.remove(f)
+                st[name] = {'ok': False, 'error': msg}
                 st['ok'] = False
-                st['error'] = (st.get('error') or '') + ' | glue2lean: ' + msg
+                st['error'] = (st.get('error') or '') + ' | ' + script + ': ' + msg
         return st
 
 def lake_build(targets):
